@@ -222,7 +222,8 @@ def check_list(res, names, incp, compp, medium, insert=None):
     regs = [make(n, _inc_for(incp, k), _comp_for(compp, k)) for k, n in enumerate(names)]
     plain = list(regs)
     if insert is not None:
-        regs.insert(insert[0], make(insert[1]))
+        for _ in range(insert[2] if len(insert) > 2 else 1):      # one, or several adjacent, non-representable members
+            regs.insert(insert[0], make(insert[1]))
     fps = [FP.fp(r) for r in regs]
     res.transitions += 1
     try:
@@ -260,7 +261,10 @@ def check_list(res, names, incp, compp, medium, insert=None):
         if diffs:
             kind = 'roundtrip_geometry'
             if e['shape'] == 'polygon' and g.get('shape') == 'polygon' and len(g['coords']) > len(e['coords']) \
-                    and g['coords'][:len(e['coords'])] == e['coords'] and all(c == (0.0, 0.0) for c in g['coords'][len(e['coords']):]):
+                    and g['coords'][:len(e['coords'])] == e['coords'] and all(c == (0.0, 0.0) for c in g['coords'][len(e['coords']):]) \
+                    and len(g['coords']) == max(len(_expected_desc(o)['coords']) for o in regs):
+                # the recorded finding: padding to the width of the X / Y columns, i.e. to the largest vertex count in the list
+                # (padding to any other width is something else and is reported)
                 kind = 'polygon_zero_padding_read_back'
             res.violation(ID, kind, case, f'member {k} ({names[k]}): ' + '; '.join(diffs[:3]), e, g)
         if e['include'] != g['include']:
@@ -559,6 +563,9 @@ def list_cases(tier):
                     out.append({'names': list(names), 'inc': 'first_false' if L else 'absent', 'comp': 'absent', 'medium': 'memory', 'insert': [pos, kind]})
                     if L < 2 and pos == 0:
                         out.append({'names': list(names), 'inc': 'first_false' if L else 'absent', 'comp': 'absent', 'medium': 'file_over', 'insert': [pos, kind]})
+                    if L < 2:
+                        for n in (2, 3):
+                            out.append({'names': list(names), 'inc': 'first_false' if L else 'absent', 'comp': 'absent', 'medium': 'memory', 'insert': [pos, kind, n]})
     return out
 
 
